@@ -13,8 +13,8 @@ from vf.gen import OPS, Prog, rand_chunks
 
 PROPERTY = "C29"
 WORKERS = {"quick": 16, "thorough": 16}
-CASES = {"quick": 500, "thorough": 30000}
-TIME = {"quick": 50, "thorough": 1200}
+CASES = {"quick": 500, "thorough": 3000}
+TIME = {"quick": 50, "thorough": 240}
 TECHNIQUE = "runtime monitoring: recording sources and recording block functions tag every read / invocation with the phase (build vs execute) flipped by the harness around compute(); offline check of the event log"
 RULE = (
     "programs from G whose leaves are RecStore sources (sentinel values >= 1000) and whose kernels are recording block functions; for every "
